@@ -50,7 +50,7 @@ def dom_of_funsor_domain(d):
 
 PREAMBLE = '''\
 import sys
-sys.path.insert(0, "/repo")
+sys.path.insert(0, __import__("os").environ.get("VERIF_REPO", "/repo"))
 import numpy as np
 from collections import OrderedDict
 import funsor
@@ -1017,7 +1017,46 @@ def generate(sizes, depth, caps, seed=0, rich=False, tries=(ENUM_MAX, 24, 12)):
     for lvl, pool in enumerate(pools):
         for tag in sorted(pool):
             out.extend(pool[tag])
+    seen = {e.src for e in out}
+    extra = [e for e in targeted(sizes) if e.src not in seen]
+    stats["targeted"] = len(extra)
+    out.extend(extra)
     return out, stats
+
+
+def targeted(sizes):
+    """expressions every run must contain (the level caps sample the rest): a reduction over a pointwise binary of two
+    real tensors for every (reduce op, binary op) pair, with operands that both mention / one lacks / both lack the reduced
+    input, and a product over such a sum -- the shapes on which normal forms, distribution and multiplicities matter."""
+    out = []
+    fb, fr = FBinary(), FReduce(("z", 2))
+    ops_b = ["add", "mul", "max", "min", "logaddexp", "sub"]
+    leaf_sets = [(("i", "j"), ("j",)), (("j",), ("i", "j")), (("i", "j"), ("i", "j")), (("i",), ("j",)), (("i", "j"), ())]
+    k = 0
+    for na, nb in leaf_sets:
+        a = tensor(na, (), 3 + k, sizes)
+        b = tensor(nb, (), 7 + k, sizes) if nb else number(0.5)
+        k += 1
+        for bop in ops_b:
+            e = fb.make((a, b), bop)
+            if e is None:
+                continue
+            for rop in REDUCE_REAL:
+                for names in (("i",), ("i", "j")):
+                    if not all(n in e.inputs for n in names):
+                        continue
+                    r = fr.make((e,), (rop, names, False))
+                    if r is not None:
+                        out.append(r)
+            # a product over the sum, reduced: distribution then multiplicities
+            c = tensor(("i", "k"), (), 11, sizes)
+            m = fb.make((c, e), "mul")
+            if m is not None and bop in ("add", "logaddexp"):
+                for rop in ("add", "logaddexp"):
+                    r = fr.make((m,), (rop, ("i",), False))
+                    if r is not None:
+                        out.append(r)
+    return out
 
 
 UNIVERSES_QUICK = [dict(i=2, j=2, k=3), dict(i=1, j=3, k=2)]
